@@ -521,8 +521,12 @@ class CodeGen:
                         if isinstance(stmt, ast.IncAssignment):
                             stmt = stmt.type_equiv_assignment()
                         is_global, access = self.lookup_var(stmt.lookup.var)
-                        dest = access.immed if isinstance(access, asm.State) else self.r1
-                        value = yield from self.get_expr_value(dest, stmt.expr)
+                        # Never evaluate straight into the variable: the
+                        # output register is scratch space (?? and array
+                        # literals store into it before they are done
+                        # reading their operands, which may be the
+                        # variable being assigned).
+                        value = yield from self.get_expr_value(self.r1, stmt.expr)
                         yield from access.set(value)
                     else:
                         bin_op = None
